@@ -116,10 +116,21 @@ def quick_configs():
 
 
 def thorough_configs():
+    out = _thorough_configs()
+    for c in out:
+        # (the larger configurations have 200-250 k engine paths: own path and time budget, still finite)
+        c.setdefault('max_paths', 1500000)
+        c.setdefault('max_seconds', 3000)
+    return out
+
+
+def _thorough_configs():
     out = []
     for strat in ('RestartOnly', 'RecreateFromDefault', 'NonRestartable'):
         for has_to in (True, False):
-            out.append(dict(strategy=strat, stream=False, panics=False, max_msgs=3, max_polls=7, max_pending=1, has_timeout=has_to))
+            # (the configurations with a handler timeout have ~207 k engine paths at these bounds: own path and time budget)
+            out.append(dict(strategy=strat, stream=False, panics=False, max_msgs=3, max_polls=7, max_pending=1, has_timeout=has_to,
+                            max_paths=1500000, max_seconds=3000))
     for strat in ('RestartOnly', 'RecreateFromDefault'):
         out.append(dict(strategy=strat, stream=False, panics=True, max_msgs=2, max_polls=5, max_pending=1, has_timeout=True))
     out.append(dict(strategy='NonRestartable', stream=True, panics=False, max_msgs=2, max_polls=6, max_pending=1, max_items=2))
